@@ -130,6 +130,10 @@ def run(ctx):
     ext = _load_ext("c07_conflicts")
     if ext:
         ext.run_ext(ctx)
+    # extension: the life of the pool across blocks (spec/poollife, harness/c07poollife)
+    ext = _load_ext("c07_poollife")
+    if ext:
+        ext.run_ext(ctx)
 
 
 def _load_ext(name):
